@@ -362,6 +362,88 @@ theorem window_future (tok : Nat) (l : LimitCfg) (hp : l.period ≠ 0) (w : List
         have : ¬ (u.start ≤ h ∧ h < u.start + l.period) := by omega
         simp [this]
 
+/-- exact form of the window bookkeeping, for a segment that starts without a usage record and whose
+    send heights do not decrease -/
+structure WinExact (tok : Nat) (l : LimitCfg) (s : St) (L : List (Nat × Nat)) : Prop where
+  hasRec : L ≠ [] → ∃ u, s.usage tok = Option.some u
+  /-- the stored total is exactly the logged amounts since the window start -/
+  total : ∀ u, s.usage tok = some u → u.total = sumFrom u.start L
+  /-- the window start is the height of a logged send -/
+  anchor : ∀ u, s.usage tok = some u → ∃ e ∈ L, e.1 = u.start
+  below : ∀ u, s.usage tok = some u → ∀ e ∈ L, e.1 < u.start + l.period
+
+theorem winExact_step (s : St) (op : Op) (tok : Nat) (l : LimitCfg) (L : List (Nat × Nat))
+    (hl : s.limit tok = some l) (hp : l.period ≠ 0) (hop : isSetLimit tok op = false)
+    (hmono : ∀ e ∈ L, ∀ h ∈ sendHeights tok [op], e.1 ≤ h)
+    (hk : WinExact tok l s L) : WinExact tok l (apply s op) (L ++ limEvents tok l s op) := by
+  rcases (apply_lim s op tok l hl hp hop).2 with ⟨hev, hus⟩ | ⟨h, amt, nu, hev, hus, hle, hcase⟩
+  · rw [hev, List.append_nil]
+    exact ⟨by rw [hus]; exact hk.hasRec, by rw [hus]; exact hk.total, by rw [hus]; exact hk.anchor, by rw [hus]; exact hk.below⟩
+  · rw [hev]
+    have hh : h ∈ sendHeights tok [op] :=
+      limEvents_heights tok l s op (h, amt) (by rw [hev]; exact List.mem_singleton.mpr rfl)
+    rcases hcase with ⟨u0, hu0, hlt, hst, htot⟩ | ⟨hst, htot, hroll⟩
+    · refine ⟨fun _ => ⟨nu, hus⟩, ?_, ?_, ?_⟩
+      · intro u hu
+        rw [hus] at hu; injection hu with hu; subst hu
+        obtain ⟨e, he, hes⟩ := hk.anchor u0 hu0
+        have hge : u0.start ≤ h := by rw [← hes]; exact hmono e he h hh
+        rw [sumFrom_append, sumFrom_cons, sumFrom_nil, hst, htot, hk.total u0 hu0]
+        simp [hge]
+      · intro u hu
+        rw [hus] at hu; injection hu with hu; subst hu
+        obtain ⟨e, he, hes⟩ := hk.anchor u0 hu0
+        exact ⟨e, List.mem_append_left _ he, by rw [hst]; exact hes⟩
+      · intro u hu e he
+        rw [hus] at hu; injection hu with hu; subst hu
+        rw [hst]
+        rcases List.mem_append.mp he with he | he
+        · exact hk.below u0 hu0 e he
+        · simp only [List.mem_singleton] at he; subst he; simp only; omega
+    · have hold : ∀ e ∈ L, e.1 < h := by
+        intro e he
+        obtain ⟨u0, hu0⟩ := hk.hasRec (List.ne_nil_of_mem he)
+        have := hk.below u0 hu0 e he
+        have := hroll u0 hu0
+        omega
+      refine ⟨fun _ => ⟨nu, hus⟩, ?_, ?_, ?_⟩
+      · intro u hu
+        rw [hus] at hu; injection hu with hu; subst hu
+        rw [sumFrom_append, sumFrom_cons, sumFrom_nil, hst, sumFrom_zero_of_lt h L hold, htot]
+        simp
+      · intro u hu
+        rw [hus] at hu; injection hu with hu; subst hu
+        exact ⟨(h, amt), by simp, hst.symm⟩
+      · intro u hu e he
+        rw [hus] at hu; injection hu with hu; subst hu
+        rw [hst]
+        rcases List.mem_append.mp he with he | he
+        · have := hold e he; omega
+        · simp only [List.mem_singleton] at he; subst he; simp only; omega
+
+theorem winExact_foldl (tok : Nat) (l : LimitCfg) (hp : l.period ≠ 0) (w : List Op) :
+    ∀ (s : St) (L : List (Nat × Nat)), s.limit tok = some l → (∀ op ∈ w, isSetLimit tok op = false) →
+      (sendHeights tok w).Pairwise (· ≤ ·) → (∀ e ∈ L, ∀ h ∈ sendHeights tok w, e.1 ≤ h) →
+      WinExact tok l s L → WinExact tok l (w.foldl apply s) (L ++ limitedSends tok l s w) := by
+  induction w with
+  | nil => intro s L _ _ _ _ hk; simpa [limitedSends] using hk
+  | cons op rest ih =>
+    intro s L hl hops hmono hL hk
+    have hop := hops op List.mem_cons_self
+    rw [sendHeights_cons] at hmono hL
+    have hmono' := (List.pairwise_append.mp hmono).2.1
+    have hcross := (List.pairwise_append.mp hmono).2.2
+    have h1 := winExact_step s op tok l L hl hp hop (fun e he h hh => hL e he h (List.mem_append_left _ hh)) hk
+    have h2 := (apply_lim s op tok l hl hp hop).1
+    have := ih (apply s op) (L ++ limEvents tok l s op) h2 (fun o ho => hops o (List.mem_cons_of_mem _ ho)) hmono'
+      (by
+        intro e he h hh
+        rcases List.mem_append.mp he with he | he
+        · exact hL e he h (List.mem_append_right _ hh)
+        · exact hcross e.1 (limEvents_heights tok l s op e he) h hh) h1
+    simpa [limitedSends, List.append_assoc] using this
+
+
 end Lemmas
 
 /-! ## Property theorems (C15) -/
@@ -517,7 +599,7 @@ theorem refund_in_full (ops : List Op) (t : Tx) (ht : t ∈ (run ops).refunded) 
   · rw [hbal, upd2_same, htax]
   · rw [hesc, upd_same, ← htax]; omega
 
-/-- **tax_burned_on_execution.** A successfully applied executed-batch claim lowers the token's supply
+/-- **tax_burned_on_execution** (single step; the history form is `burn_in_full`).  A successfully applied executed-batch claim lowers the token's supply
 (and the escrow) by the sum of amount *plus recorded tax* over the batch's transfers — and by
 `recorded_tax_is_acceptance_tax` every one of those taxes is the tax charged at acceptance. -/
 theorem tax_burned_on_execution (s : St) (f : Fault) (tok nonce eh : Nat)
@@ -536,14 +618,65 @@ theorem tax_burned_on_execution (s : St) (f : Fault) (tok nonce eh : Nat)
     · rw [h1]; simp only [execOk, hmap]; rw [← hbt, upd_same]; omega
     · rw [h1]; simp only [execOk, hmap]; rw [← hbt, upd_same]; omega
 
+
+/-- **burn_in_full** ("the tax is … burned on execution", over whole histories).  Every burned transfer `t`
+was accepted by an `ok` send at some point `preS` of the history — its recorded tax being `taxOf` under the
+setting in force there — and was burned in ONE end-block `preE ++ [endBlock …]` of the history (the one
+`burned_provenance` of C01 identifies by claim and batch).  That end-block prepended `nb ∋ t` to `burned` and
+`na` to the observation log, and for every token it lowered the supply by exactly the sum of *amount plus
+recorded tax* over the transfers it burned (and raised it by the deposits it applied), and lowered the escrow
+by the same burned sum; every transfer of `nb` carries the tax charged at its own acceptance. -/
+theorem burn_in_full (ops : List Op) (t : Tx) (ht : t ∈ (run ops).burned) :
+    ∃ preS fS hS restS preE f h now toks ests restE nb na,
+      ops = preS ++ .send fS t.sender t.token t.amount hS :: restS ∧
+      (send (run preS) fS t.sender t.token t.amount hS).2.2 = .ok ∧
+      t.tax = taxOf ((run preS).tax t.token) t.sender t.amount ∧
+      ops = preE ++ .endBlock f h now toks ests :: restE ∧
+      (run (preE ++ [.endBlock f h now toks ests])).burned = nb ++ (run preE).burned ∧ t ∈ nb ∧
+      (run (preE ++ [.endBlock f h now toks ests])).applied = na ++ (run preE).applied ∧
+      (∀ tok, (run (preE ++ [.endBlock f h now toks ests])).supply tok +
+                ((nb.filter (fun x => x.token == tok)).map (fun x => x.amount + x.tax)).sum =
+              (run preE).supply tok + depositsOk tok na ∧
+              (run (preE ++ [.endBlock f h now toks ests])).escrow tok +
+                ((nb.filter (fun x => x.token == tok)).map (fun x => x.amount + x.tax)).sum = (run preE).escrow tok) ∧
+      (∀ x ∈ nb, ∃ preX fX hX restX, preE = preX ++ .send fX x.sender x.token x.amount hX :: restX ∧
+        (send (run preX) fX x.sender x.token x.amount hX).2.2 = .ok ∧
+        x.tax = taxOf ((run preX).tax x.token) x.sender x.amount) := by
+  obtain ⟨preS, fS, hS, restS, heS, hokS, htax⟩ := recorded_tax_is_acceptance_tax ops t (by simp [ht])
+  obtain ⟨preE, f, h, now, toks, ests, restE, n, nonce, eh, heE, hnot, hin, _⟩ := burned_provenance ops t ht
+  obtain ⟨nb, na, hb, ha, hd⟩ :=
+    (supply_changes_only_by_fund_deposit_burn preE (.endBlock f h now toks ests)).2.1 f h now toks ests rfl
+  refine ⟨preS, fS, hS, restS, preE, f, h, now, toks, ests, restE, nb, na, heS, hokS, htax, heE, hb, ?_, ha, hd, ?_⟩
+  · rw [hb, List.mem_append] at hin
+    rcases hin with h1 | h1
+    · exact h1
+    · exact absurd h1 hnot
+  · intro x hx
+    -- x is burned after the end-block, hence was accepted by a send of `preE ++ [endBlock]`, which is in `preE`
+    have hx' : x ∈ (run (preE ++ [.endBlock f h now toks ests])).burned := by rw [hb]; exact List.mem_append_left _ hx
+    obtain ⟨preX, fX, hX, restX, heX, hokX, htaxX⟩ :=
+      recorded_tax_is_acceptance_tax (preE ++ [.endBlock f h now toks ests]) x (by simp [hx'])
+    -- the send op is not the last op (an end-block)
+    rcases List.eq_nil_or_concat restX with hr | ⟨restX', lastX, hr⟩
+    · subst hr
+      have := congrArg List.getLast? heX
+      simp at this
+    · subst hr
+      have h1 : preE ++ [Op.endBlock f h now toks ests] = (preX ++ .send fX x.sender x.token x.amount hX :: restX') ++ [lastX] := by
+        rw [heX]; simp
+      have h2 := List.append_inj' h1 rfl
+      exact ⟨preX, fX, hX, restX', h2.1, hokX, htaxX⟩
+
 /-- **window_total_le_limit** (the limit clause, over whole histories).  Take any state `s` in which
 `tok` has an active limit `l`, and any continuation `w₁ ++ w₂` during which governance does not touch
 that setting; let `u` be the usage record stored after `w₁` — so `[u.start, u.start + period)` is one of
 the token's limit windows.  Then the accepted sends of non-exempt senders in the whole continuation
 whose block height lies in that window total at most the limit.  (`limitedSends` is computed from the
 ops and the results they reported, heights are the ops' own block heights, `hmono` says block heights do
-not decrease — SDK behaviour.)  Sends accepted before `s` are a different regime: choose `s` right after
-the limit was last set. -/
+not decrease — SDK behaviour, an external ASSUMPTION; without it a send at a height *below* `u.start` would
+be taken for a send of the running window, `h - u.start` being truncated to 0 — that cannot happen on a chain
+whose heights increase.)  Sends accepted before `s` are a different regime: choose `s` right after the limit
+was last set.  The stored counter itself is bounded by `usage_total_bounds` / `usage_total_exact`. -/
 theorem window_total_le_limit (s : St) (w₁ w₂ : List Op) (tok : Nat) (l : LimitCfg) (u : Usage)
     (hl : s.limit tok = some l) (hp : l.period ≠ 0)
     (hconst : ∀ op ∈ w₁ ++ w₂, isSetLimit tok op = false)
@@ -582,6 +715,63 @@ theorem window_total_le_limit_run (pre w₁ w₂ : List Op) (tok : Nat) (l : Lim
     (hu : (run (pre ++ w₁)).usage tok = some u) :
     sumIn u.start l.period (limitedSends tok l (run pre) (w₁ ++ w₂)) ≤ l.limit :=
   window_total_le_limit (run pre) w₁ w₂ tok l u hl hp hconst hmono (by rw [← run_append]; exact hu)
+
+
+/-- **usage_total_bounds** (the stored counter, as an invariant of every segment with a constant active
+limit).  After any continuation `w` of any state `s` during which governance does not touch the token's limit
+setting: once a limited send was accepted there is a usage record and its total is within the limit; and for
+the record `u` on file, the accepted limited sends of the segment at heights `≥ u.start` total at most
+`u.total`, and all of them lie before the end of the window.  (`≤`, not `=`: the record may carry allowance
+used before `s`; and a send at a height *below* `u.start` — possible only if block heights decreased — is
+counted in `u.total` but not in the sum.  The exact form is `usage_total_exact`.) -/
+theorem usage_total_bounds (s : St) (w : List Op) (tok : Nat) (l : LimitCfg)
+    (hl : s.limit tok = some l) (hp : l.period ≠ 0) (hconst : ∀ op ∈ w, isSetLimit tok op = false) :
+    (limitedSends tok l s w ≠ [] → ∃ u, (w.foldl apply s).usage tok = some u ∧ u.total ≤ l.limit) ∧
+    (∀ u, (w.foldl apply s).usage tok = some u →
+      sumFrom u.start (limitedSends tok l s w) ≤ u.total ∧
+      ∀ e ∈ limitedSends tok l s w, e.1 < u.start + l.period) := by
+  have h1 := (winInv_foldl tok l hp w s [] hl hconst
+    ⟨fun _ _ => (by simp [sumFrom_nil]), fun _ _ e he => (by cases he), fun h => absurd rfl h⟩).1
+  simp only [List.nil_append] at h1
+  exact ⟨h1.some, fun u hu => ⟨h1.cur u hu, h1.below u hu⟩⟩
+
+/-- **usage_total_exact.** For a segment that starts without a usage record (`hfresh`, e.g. right after the
+token's first limit was set) and whose send heights do not decrease (`hmono`: SDK behaviour, external
+assumption): the stored total IS the sum of the accepted sends of non-exempt senders with height in the
+stored window `[u.start, u.start + period)`, it is within the limit, and the window was opened by one of
+those sends. -/
+theorem usage_total_exact (s : St) (w : List Op) (tok : Nat) (l : LimitCfg) (u : Usage)
+    (hl : s.limit tok = some l) (hp : l.period ≠ 0) (hconst : ∀ op ∈ w, isSetLimit tok op = false)
+    (hfresh : s.usage tok = none) (hmono : (sendHeights tok w).Pairwise (· ≤ ·))
+    (hu : (w.foldl apply s).usage tok = some u) :
+    u.total = sumIn u.start l.period (limitedSends tok l s w) ∧ u.total ≤ l.limit ∧
+    ∃ e ∈ limitedSends tok l s w, e.1 = u.start := by
+  have h1 := winExact_foldl tok l hp w s [] hl hconst hmono (fun e he => by cases he)
+    ⟨fun h => absurd rfl h, fun u hu => (by rw [hfresh] at hu; cases hu), fun u hu => (by rw [hfresh] at hu; cases hu),
+     fun u hu => (by rw [hfresh] at hu; cases hu)⟩
+  simp only [List.nil_append] at h1
+  obtain ⟨e, he, hes⟩ := h1.anchor u hu
+  refine ⟨?_, ?_, e, he, hes⟩
+  · rw [sumIn_eq_sumFrom _ _ _ (h1.below u hu)]; exact h1.total u hu
+  · obtain ⟨u', hu', hle⟩ := (usage_total_bounds s w tok l hl hp hconst).1 (List.ne_nil_of_mem he)
+    rw [hu] at hu'; injection hu' with hu'; subst hu'; exact hle
+
+/-- a *sliding* reading of the limit clause: every `period` consecutive heights -/
+def SlidingBound (l : LimitCfg) (L : List (Nat × Nat)) : Prop := ∀ a, sumIn a l.period L ≤ l.limit
+
+/-- **sliding_bound_is_false.** The *sliding* reading of the limit clause, as a formal predicate
+(`SlidingBound`: every `period` consecutive heights total at most the limit), is refuted by a history through
+`run` that satisfies every hypothesis of `window_total_le_limit` (constant limit, monotone heights): limit 100
+per 10 blocks, 1@0, 99@9, 100@10 are all accepted, 199 within heights `[1, 11)`.  The implementation is a
+fixed-window limiter; the clause as worded ("within any one limit window") is `window_total_le_limit`. -/
+theorem sliding_bound_is_false :
+    ∃ (pre w : List Op) (tok : Nat) (l : LimitCfg),
+      (run pre).limit tok = some l ∧ l.period ≠ 0 ∧ (∀ op ∈ w, isSetLimit tok op = false) ∧
+      (sendHeights tok w).Pairwise (· ≤ ·) ∧ ¬ SlidingBound l (limitedSends tok l (run pre) w) :=
+  ⟨[.fund 1 1 1000, .setLimit 1 (some { period := 10, limit := 100, exempt := [] })],
+   [.send Fault.none 1 1 1 0, .send Fault.none 1 1 99 9, .send Fault.none 1 1 100 10], 1,
+   { period := 10, limit := 100, exempt := [] }, by decide, by decide, by decide, by decide,
+   fun h => absurd (h 1) (by decide)⟩
 
 /-- **usage_within_limit.** Whenever a limited send is accepted, the usage record it leaves is within
 the limit in force (single step, any state). -/
@@ -741,5 +931,26 @@ example : sumIn 5 10 (limitedSends 1 { period := 10, limit := 100, exempt := [2]
   window_total_le_limit_run (demo15.take 4) ((demo15.drop 4).take 4) ((demo15.drop 4).drop 4) 1
     { period := 10, limit := 100, exempt := [2] } { start := 5, total := 100 }
     (by decide) (by decide) (by decide) (by decide) (by decide)
+
+/-- `usage_total_exact` instantiated on `demo15`: the segment after the limit was set starts without a usage
+record; after four ops the record is `[5, 15)` with total 100 = 60 + 40 -/
+example : (100 : Nat) = sumIn 5 10 (limitedSends 1 { period := 10, limit := 100, exempt := [2] }
+      (run (demo15.take 4)) ((demo15.drop 4).take 4)) :=
+  (usage_total_exact (run (demo15.take 4)) ((demo15.drop 4).take 4) 1 { period := 10, limit := 100, exempt := [2] }
+    { start := 5, total := 100 } (by decide) (by decide) (by decide) (by decide) (by decide) (by decide)).1
+
+/-- tax burned on execution, through `run`: rate 1/3, 100 sent (tax 33), batch built, executed-batch claim
+attested in an end-block: the supply falls by 133, the burned transfer carries the acceptance tax although the
+rate was changed before the execution -/
+def demoBurn : List Op :=
+  [ .fund 1 1 1000, .setTax 1 (some { num := 1, den := 3, exempt := [] }),
+    .send Fault.none 1 1 100 10, .build Fault.none 1 1000,
+    .setTax 1 (some { num := 1, den := 2, exempt := [] }),
+    .claim 1 (.executed 1 1 5), .endBlock Fault.none 7 1001 [1] [] ]
+
+example : ((run demoBurn).burned.map (fun t => (t.id, t.amount, t.tax))) = [(1, 100, 33)] ∧
+    (run (demoBurn.take 6)).supply 1 = 1000 ∧ (run demoBurn).supply 1 = 1000 - 133 ∧
+    (run (demoBurn.take 6)).escrow 1 = 133 ∧ (run demoBurn).escrow 1 = 0 ∧
+    (run demoBurn).applied = [(1, .executed 1 1 5, .ok)] := by decide
 
 end Paloma.Bridge
